@@ -711,3 +711,143 @@ func TestVerifC01Generations(t *testing.T) {
 		})
 	}
 }
+
+// TestVerifC01SlowAuth: the authenticator takes SECONDS (virtual) to decide some connections — an
+// external auth backend under load. Whatever the server does while it waits (timeouts, in-flight
+// limits, pooled result slots), a verdict reached for one connection must never be handed to
+// another: after the slow verdicts have arrived, a long run of fresh connections presents credentials
+// the authenticator rejects; none of them may see 233, have a socket opened or receive a payload.
+// Same log oracle as above.
+func TestVerifC01SlowAuth(t *testing.T) {
+	k := vfNewKit(t, "C01", "c01-slow-auth")
+	defer k.Finish()
+	defer debug.SetGCPercent(debug.SetGCPercent(-1))
+	n := k.N(6, 80)
+	for i := 0; i < n; i++ {
+		caseID := fmt.Sprintf("c01s-%d", i)
+		if rc := k.ReplayCase(); rc != "" && rc != caseID {
+			continue
+		}
+		r := k.Rand(caseID)
+		runtime.GC()
+		k.Eval()
+		nslow := 1 + r.Intn(3)
+		holdFor := []time.Duration{6 * time.Second, 11 * time.Second, 21 * time.Second}[i%3]
+		nlater := 12 + r.Intn(16)
+		synctest.Test(t, func(t *testing.T) {
+			w, err := vfNewWorld(vfServerOpts{Latency: time.Duration(1+r.Intn(10)) * time.Millisecond})
+			if err != nil {
+				t.Fatalf("harness: server: %v", err)
+			}
+			w.Out.OnTCP = func(addr string) (net.Conn, error) {
+				pt := vfNewPipeTarget()
+				go func() { _, _ = pt.Harness.Write([]byte("GREETING-FROM-" + addr)) }()
+				w.onClose(func() { _ = pt.Harness.Close() })
+				return pt.serverSide, nil
+			}
+			w.Out.OnUDP = func(addr string) (server.UDPConn, error) {
+				s := vfNewSinkUDP(w.Log, addr)
+				s.Reply([]byte("UDP-GREETING-"+addr), addr)
+				return s, nil
+			}
+			var c vfC01Case
+			c.CaseID = caseID
+			var states []*vfC01ConnState
+			kk := 0
+			probe := func(raw *vfRaw, st *vfC01ConnState, kk, nn int) {
+				if s, err := raw.ProxyStream(fmt.Sprintf("c%dx%d.verif:80", kk, nn)); err == nil {
+					_, _ = s.Write([]byte("probe"))
+					b, _ := vfReadSome(s, 200*time.Millisecond)
+					st.mu.Lock()
+					st.streamBytes += int64(len(b))
+					st.mu.Unlock()
+					s.CancelRead(0)
+					_ = s.Close()
+				}
+			}
+			watch := func(raw *vfRaw, st *vfC01ConnState) {
+				dctx, dcancel := context.WithCancel(context.Background())
+				w.onClose(dcancel)
+				go func() {
+					for {
+						if _, err := raw.Conn.ReceiveDatagram(dctx); err != nil {
+							return
+						}
+						st.mu.Lock()
+						st.dgramsRecv++
+						st.mu.Unlock()
+					}
+				}()
+			}
+			// slow ones: the authenticator holds each for holdFor, then decides (accept or reject)
+			slowDone := make(chan struct{}, nslow)
+			var slowRaws []*vfRaw
+			for j := 0; j < nslow; j++ {
+				kk++
+				myK := kk
+				raw, err := w.RawClient()
+				if err != nil {
+					t.Fatalf("harness: raw client: %v", err)
+				}
+				st := &vfC01ConnState{tag: raw.Tag}
+				states = append(states, st)
+				watch(raw, st)
+				good := j == 0 || r.Intn(2) == 0
+				kind, cred := "auth_held", fmt.Sprintf("hold:ok:u%d", myK)
+				if !good {
+					kind, cred = "auth_held_bad", fmt.Sprintf("hold:bad-c%d", myK)
+				}
+				c.Conns = append(c.Conns, vfC01ConnScript{K: myK, Actions: []vfC01Action{{Kind: kind, N: 1}, {Kind: "stream", N: 2}}})
+				slowRaws = append(slowRaws, raw)
+				go func() {
+					defer func() { slowDone <- struct{}{} }()
+					resp := raw.AuthReq(cred, "0")
+					st.mu.Lock()
+					if resp.Status == 233 {
+						st.saw233 = true
+						st.everOK = true
+					}
+					st.mu.Unlock()
+					probe(raw, st, myK, 2)
+				}()
+			}
+			time.Sleep(holdFor)
+			for _, raw := range slowRaws {
+				w.Auth.Release(raw.Tag)
+			}
+			for j := 0; j < nslow; j++ {
+				<-slowDone
+			}
+			k.Count("ev_slow_verdicts", int64(nslow))
+			// later ones: rejected credentials, one after the other, each followed by probes
+			for j := 0; j < nlater; j++ {
+				kk++
+				raw, err := w.RawClient()
+				if err != nil {
+					t.Fatalf("harness: raw client: %v", err)
+				}
+				st := &vfC01ConnState{tag: raw.Tag}
+				states = append(states, st)
+				watch(raw, st)
+				c.Conns = append(c.Conns, vfC01ConnScript{K: kk, Actions: []vfC01Action{{Kind: "auth_bad", N: 1}, {Kind: "stream", N: 2}, {Kind: "dgram", N: 3}}})
+				if resp := raw.AuthReq(fmt.Sprintf("bad-c%d", kk), "0"); resp.Status == 233 {
+					st.mu.Lock()
+					st.saw233 = true
+					st.mu.Unlock()
+				}
+				probe(raw, st, kk, 2)
+				_ = raw.Conn.SendDatagram(vfUDPMessageBytes(uint32(j+1), 0, 0, 1, fmt.Sprintf("c%dx3.verif:53", kk), []byte("unauth-dgram")))
+				k.Count("ev_rejected_after_slow_verdict", 1)
+			}
+			time.Sleep(time.Second)
+			synctest.Wait()
+			evs := w.Log.Snapshot()
+			w.Close()
+			vfC01Judge(k, c, states, evs)
+			k.Nontrivial(fmt.Sprintf("%s/%d/%v/%d", caseID, nslow, holdFor, nlater))
+			if i == 0 {
+				k.Sample(map[string]any{"case_id": caseID, "slow": nslow, "held_for": holdFor.String(), "later_rejected": nlater})
+			}
+		})
+	}
+}
